@@ -1,5 +1,5 @@
 //@PROBE file=src/utils/bbox.rs test=verif_probe_bbox_iou_exact_c08 clauses=bbox_iou_exact
-//@BOUND 3000 pseudo-random pairs (sizes 0.1..1e3, aspect 0.2..4, angles None / 0 / multiples of pi/2 / arbitrary incl. |a| > 2pi, equal angles for elongated boxes, partner placed within reach: overlapping, nested, touching, edge sharing, identical, disjoint) at the origin and translated by (8192, -9000) on a dyadic grid; reference: independent f64 convex clipping in the first box's local frame (tolerance 1e-4 x smaller area); the IoU is absent exactly when intersection() is 0; plus equal squares of side 0.1..1000 (axis-aligned and rotated) sharing a corner region of 1%..50% of their side (marginal overlaps at every scale); elongated boxes at angles of many turns (1e3..1e5 rad)
+//@BOUND 3000 pseudo-random pairs (sizes 0.1..1e3, aspect 0.2..4, angles None / 0 / multiples of pi/2 / arbitrary incl. |a| > 2pi, equal angles for elongated boxes, partner placed within reach: overlapping, nested, touching, edge sharing, identical, disjoint) at the origin and translated by (8192, -9000) on a dyadic grid; reference: independent f64 convex clipping in the first box's local frame (tolerance 1e-4 x smaller area); the IoU is absent exactly when intersection() is 0; plus equal squares of side 0.1..1000 (axis-aligned and rotated) sharing a corner region of 1%..50% of their side (marginal overlaps at every scale); elongated boxes at angles of many turns (1e3..1e5 rad); thin 100 x 1 boxes crossing like an X / off-centre plus sign at every common rotation
 #[cfg(test)]
 mod verif_probe_bbox_iou_exact_c08 {
     // Bounded stand-in for the numeric clauses of C08 that the Kani harnesses cannot pin (trigonometry, f64 clipping):
@@ -109,6 +109,25 @@ mod verif_probe_bbox_iou_exact_c08 {
                 }
             }
         } }
+        // ---- long thin boxes crossing like an X or an off-centre plus sign: no corner and no centre of either lies inside the other
+        for turn in [None, Some(0.0f32), Some(0.4), Some(1.1), Some(std::f32::consts::FRAC_PI_2), Some(2.5), Some(-0.9), Some(7.0)] { for (ox, oy) in [(30.0f32, 20.0f32), (-41.0, 7.0), (12.5, -33.0)] { for cross in [std::f32::consts::FRAC_PI_2, 1.0, 2.3] {
+            cases += 1;
+            let t = turn.unwrap_or(0.0);
+            let a = Universal2DBox::new(0.0, 0.0, turn, 100.0, 1.0); // 100 x 1
+            let (cx, cy) = (ox * t.cos() - oy * t.sin(), ox * t.sin() + oy * t.cos());
+            let b = if turn.is_none() && cross == std::f32::consts::FRAC_PI_2 { Universal2DBox::new(cx, cy, None, 0.01, 100.0) } else { Universal2DBox::new(cx, cy, Some(t + cross), 100.0, 1.0) };
+            let ctx = format!("PROBE input: thin boxes crossing at {} rad, second centre offset ({}, {}), both turned by {:?}", cross, ox, oy, turn);
+            let want = reference(&a, &b);
+            for (x, y) in [(&a, &b), (&b, &a)] {
+                let got = Universal2DBox::intersection(x, y);
+                if (got - want).abs() > 1e-3 * want + 1e-9 { failures.push(format!("{}: bbox_iou_exact.intersection_is_the_true_area: {} vs reference {}", ctx, got, want)); break; }
+                let wiou = want / (200.0 - want);
+                match Universal2DBox::calculate_metric_object(&Some(x), &Some(y)) {
+                    None => if want > 1e-6 { failures.push(format!("{}: bbox_iou_exact.iou_absent_only_without_overlap: absent although the boxes overlap by {}", ctx, want)); },
+                    Some(v) => if (v as f64 - wiou).abs() > 2e-3 * wiou + 1e-9 { failures.push(format!("{}: bbox_iou_exact.iou_is_intersection_over_union: {} vs reference {}", ctx, v, wiou)); },
+                }
+            }
+        } } }
         // ---- marginal overlaps at every scale: two equal squares (side s, common angle) sharing a corner region of f x f of their side
         for s in [0.1f32, 0.3, 1.0, 30.0, 1000.0] { for f in [0.01f32, 0.03, 0.1, 0.5] { for ang in [None, Some(0.0f32), Some(0.7), Some(-2.2)] {
             cases += 1;
